@@ -329,7 +329,7 @@ def eckey(i, compressed=True):
 
 
 SPEND_TEMPLATES = ["p2pk", "p2pkh", "multisig", "p2sh_multisig", "p2wpkh", "p2sh_p2wpkh", "p2wsh_multisig", "p2wsh_script", "p2sh_script", "p2sh_p2wsh_script",
-                   "p2tr_key", "p2tr_checksig", "p2tr_csa", "p2tr_budget", "p2tr_unknownpk", "p2tr_unknownpk", "p2tr_script", "p2tr_leafver", "witness_unknown", "bare_script"]
+                   "p2tr_key", "p2tr_checksig", "p2tr_csa", "p2tr_budget", "p2tr_unknownpk", "p2tr_unknownpk", "p2tr_unknownpk", "p2tr_script", "p2tr_leafver", "witness_unknown", "bare_script"]
 MUTATIONS = ["none", "none", "none", "sigbit", "hashtype", "highs", "derpad", "wrongkey", "extrawit", "dummy", "sigmall", "emptysig", "amount", "dropwit", "uncompressed",
              "hybrid", "annex", "sighash_default_byte", "swap"]
 
@@ -361,11 +361,11 @@ def k_spend(draw):
         # (length other than 0 / 32); nsig such opcodes around the budget 50 + witness size (annex padding: valid iff pad >= 0)
         ex["pklen"] = draw(st.sampled_from([1, 1, 2, 16, 31, 33, 33, 65]))
         ex["nsig"] = draw(st.integers(2, 12))
-        ex["pad"] = draw(st.sampled_from([-2, -1, -1, 0, 0, 1, 7]))
+        ex["pad"] = draw(st.sampled_from([-2, -1, -1, -1, 0, 0, 1, 7]))
         ex["form"] = draw(st.integers(0, 2))
         ex["siglen"] = draw(st.sampled_from([1, 1, 2, 64, 65]))
         fl = set(ex["flags"]) | {"P2SH", "WITNESS", "TAPROOT"}
-        if draw(st.integers(0, 2)):
+        if draw(st.integers(0, 3)):
             fl.discard("DISCOURAGE_UPGRADABLE_PUBKEYTYPE")
         else:
             fl.add("DISCOURAGE_UPGRADABLE_PUBKEYTYPE")
